@@ -236,8 +236,51 @@ def run(chk, repo, tier):
     okg = len(raises) == 1 and any(c == want and pol is False for c, pol, _ in raises[0].conds)
     rets_g = [p for p in returns(paths)]
     okg = okg and all(p.ret in (a, b, Tup(a.items), Tup(b.items)) for p in rets_g)
+    if not okg and raises and all(p.ret in (a, b, Tup(a.items), Tup(b.items)) for p in rets_g):
+        # the same guard written another way (`a[0] != b[0] or a[1] != b[1]`, nested ifs): decided over the four outcomes of
+        # the two component comparisons - the call raises exactly when one of them differs
+        okg = _guard_table(paths, a, b)
     chk.ob('C07-g', 'D-guard', fg.key, 'ValueError unless both components agree', okg,
-           '' if okg else 'the refusal is not guarded by equality of both pixel-scale components', fg.loc())
+           '' if okg else ('the refusal is not guarded by equality of both pixel-scale components' if okg is False else
+                           'undecided: the conditions of the refusal are not comparisons of the pixel-scale components'), fg.loc())
+
+
+def _guard_table(paths, a, b):
+    eqs = {}
+    for k in (0, 1):
+        for x, y in ((a.items[k], b.items[k]), (b.items[k], a.items[k])):
+            eqs[nf.vkey(nf.app('eq', x, y))] = (k, True)
+            eqs[nf.vkey(nf.app('ne', x, y))] = (k, False)
+
+    def ev(c, env):
+        if nf.vkey(c) in eqs:
+            k, pos = eqs[nf.vkey(c)]
+            return env[k] if pos else not env[k]
+        ca = c.single_atom() if isinstance(c, Poly) else None
+        if ca is not None and is_app(ca, ('and', 'or')):
+            vals = [ev(x, env) for x in ca[2]]
+            if any(v is None for v in vals):
+                return None
+            return all(vals) if ca[1] == 'and' else any(vals)
+        if ca is not None and is_app(ca, 'not'):
+            v = ev(ca[2][0], env)
+            return None if v is None else not v
+        return None
+    for e0 in (True, False):
+        for e1 in (True, False):
+            taken = []
+            for p in paths:
+                vals = [ev(c, (e0, e1)) for c, pol, _ in p.conds]
+                if any(v is None for v in vals):
+                    return None
+                if all(v == pol for v, (c, pol, _) in zip(vals, p.conds)):
+                    taken.append(p)
+            if len(taken) != 1:
+                return None
+            raised = taken[0].status == 'raise' and taken[0].exc == 'ValueError'
+            if raised != (not (e0 and e1)):
+                return False
+    return True
 
 
 def pair_(name):
